@@ -1002,6 +1002,8 @@ class Interp:
         self.exec_block(node.orelse, frame)
 
     def resolve_iterable(self, it):
+        if isinstance(it, SObj) and "__iter__" in it.fields:
+            return self.resolve_iterable(self.call(it.fields["__iter__"], []))
         if isinstance(it, SObj) and it.cls is not None:
             f = _find_in_mro(it.cls, "__iter__")
             if isinstance(f, types.FunctionType):
@@ -1012,6 +1014,10 @@ class Interp:
         """Concrete-length iteration."""
         if isinstance(it, (list, tuple)):
             return list(it)
+        if isinstance(it, SObj):
+            r = self.resolve_iterable(it)
+            if r is not it:
+                return self.iterate(r)
         if isinstance(it, (dict, set, frozenset, range, str)):
             return list(it)
         if isinstance(it, SStr) and it.is_literal():
@@ -1566,6 +1572,20 @@ class Interp:
         raise Unsupported("numeric operator %s" % opn)
 
     def obj_binop(self, opn, a, b):
+        import datetime as _dt
+
+        def ordinal(x):
+            if isinstance(x, SObj) and x.cls is _dt.date and "_ordinal" in x.fields:
+                return x.fields["_ordinal"]
+            if isinstance(x, _dt.date):
+                return x.toordinal()
+            return None
+
+        if opn == "Sub":
+            oa, ob = ordinal(a), ordinal(b)
+            if oa is not None and ob is not None:
+                self.path.assumed.add("datetime.date subtraction yields the difference of proleptic Gregorian ordinals in days")
+                return SObj(_dt.timedelta, "timedelta", days=to_int(oa) - to_int(ob))
         raise Unsupported("operator %s on object" % opn)
 
     def check_nonzero(self, b):
@@ -2173,10 +2193,16 @@ def call_str_method(interp, bm, args, kwargs):
         return interp.native(getattr(bm.concrete, name), args, kwargs)
     if s.is_literal() and deep_concrete(args):
         return interp.native(getattr(s.literal(), name), args, kwargs)
-    if name == "startswith":
-        return str_startswith(s, _as_sstr(args[0]))
-    if name == "endswith":
-        return str_endswith(s, _as_sstr(args[0]))
+    if name in ("startswith", "endswith") and len(args) == 1:
+        fn = str_startswith if name == "startswith" else str_endswith
+        if isinstance(args[0], tuple):  # any of the alternatives
+            acc = False
+            for alt in args[0]:
+                acc = _or(acc, fn(s, _as_sstr(alt)))
+                if acc is True:
+                    return True
+            return acc
+        return fn(s, _as_sstr(args[0]))
     if name == "upper" or name == "lower":
         fn = str.upper if name == "upper" else str.lower
         out = []
@@ -2463,5 +2489,28 @@ def invariant_while(label, modifies, inv, on_havoc=None):
         # exit through the guard becoming false
         if it.truth(it.eval(node.test, frame)):
             raise PathDone()
+
+    return spec
+
+
+def unroll_while(label, max_iter):
+    """Loop contract by bounded unwinding: the loop is executed up to `max_iter` times, then an
+    *unwinding assertion* (the guard is false) must be discharged -- complete when it is."""
+
+    def spec(it, node, frame, _unused):
+        if node.orelse:
+            raise Unsupported("while-else under unwinding")
+        for _ in range(max_iter):
+            if not it.truth(it.eval(node.test, frame)):
+                return
+            try:
+                it.exec_block(node.body, frame)
+            except _Continue:
+                continue
+            except _Break:
+                return
+        g = it.truth_term(it.eval(node.test, frame))
+        it.path.oblige("%s.unwinding[%d]" % (label, max_iter), _not(g) if not isinstance(g, bool) else z3.BoolVal(not g), kind="inv")
+        it.path.assume(_not(g) if not isinstance(g, bool) else z3.BoolVal(not g))
 
     return spec
